@@ -18,8 +18,8 @@ from vf.gen import objects as gobj
 ID = 'C13'
 LEVEL = 'exploration'
 DECIDING = ['c13:safe_queries_monitored', 'c13:dir_compared', 'c13:plain_paths_compared']
-RULE = ('a case = 3 generated classes with random subsets of 19 features (property, data/non-data '
-        'descriptors, slots, metaclass property/descriptor, __getattr__/__getattribute__/__dir__, '
+RULE = ('a case = 3 generated classes with random subsets of 23 features (property, classmethod over '
+        'property, data/non-data descriptors, class attributes shadowed by metaclass descriptors, slots, metaclass property/descriptor, __getattr__/__getattribute__/__dir__, '
         '__getitem__/__iter__/__next__/__call__/__len__/__bool__, class/instance attributes holding '
         'builtin values, functions, classes, nested lists/dicts/tuples/namespaces; inheritance), '
         'instances placed in the namespace; class source findable (imported from a file) or not '
@@ -50,16 +50,20 @@ def expressions(rnd, objs, plain, feats_by_class):
                    'list(%s)[0].' % o, '[y for y in %s][0].' % o, '(%s if %s else 1).' % (o, o),
                    '%s.prop.' % o, '%s.nd.' % o, '%s.dd.' % o, '%s.meth(' % o, '%s(' % o,
                    '%s.lcm.' % o, '%s.lcm(' % o, '%s.csm' % o, '%s.lprop.' % o, '%s.lcm' % o,
-                   '%s.gd.' % o, '%s.gd' % o,
+                   '%s.gd.' % o, '%s.gd' % o, '%s.cprop.' % o,
                    'not %s' % o, '%s.i_list[0].' % o, 'next(%s).' % o, 'bool(%s)' % o,
                    'x, y = %s\nx.' % o, '%s.dynamic_one.' % o]
-        elif o.startswith('sub_') and o != 'sub_box':
+        elif o.startswith('sub_') and o not in ('sub_box', 'sub_iterbox'):
             ex += ['%s[0].' % o, '%s[0]' % o, "%s['k']." % o, "%s['k']" % o, '%s[1].' % o]
+        elif o == 'sub_iterbox':
+            ex += ["sub_iterbox['it'][0].", "sub_iterbox['it'][0]", "sub_iterbox['tup'][0][0].",
+                   "for x in sub_iterbox['it']:\n    x.", "sub_iterbox['tup'][0][1]"]
         elif o == 'sub_box':
             ex += ["sub_box['rows'][0].", "sub_box['rows'][0]", "sub_box['both'][0]['k'].",
                    "sub_box['both'][1][0].", "sub_box['both'][1][0]"]
         elif o.startswith('K'):
-            ex += ['%s.lcm.' % o, '%s.csm(' % o, '%s.lprop' % o,
+            ex += ['%s.cprop.' % o, '%s.mdd.' % o, '%s.mdd' % o, '%s.cprop' % o,
+                   '%s.lcm.' % o, '%s.csm(' % o, '%s.lprop' % o,
                    '%s.mprop.' % o, '%s.mnd.' % o, '%s.prop.' % o, '%s.nd.' % o, '%s.c_leaf.' % o,
                    '%s().' % o, '%s.cmeth().' % o, '%s.meta_method(' % o]
     for o in objs:
@@ -98,7 +102,7 @@ def run(spec):
     namespace = {k: ns[k] for k in objs}
     exprs = expressions(rnd, objs, plain, feats_by_class)
     rnd.shuffle(exprs)
-    counted_present = any(set(f) & {'property', 'nondata_desc', 'data_desc', 'meta_property', 'sub_builtin_desc', 'getdel_desc',
+    counted_present = any(set(f) & {'property', 'cm_property', 'nondata_desc', 'data_desc', 'meta_property', 'sub_builtin_desc', 'getdel_desc',
                                     'meta_desc', 'getitem', 'iter', 'next', 'call', 'len', 'bool'}
                           for f in feats_by_class.values())
     control_moved = False
